@@ -81,7 +81,7 @@ theorem preO : PreO KeepsCoherent := OnSt.preO (fun _ h => h) (fun h1 h2 h => h2
 
 theorem stepRel (m : Msg) : StepRel KeepsCoherent m where
   pre := preO
-  write := fun line => Rel.transportWrite (fun _ h => h) line
+  write := fun _ _ => Rel.transportWrite (fun _ h => h) _
   setNode := fun _ => keeps_of_same (fun _ => rfl) (fun _ => rfl)
   alloc := keeps_of_same (fun _ => rfl) (fun _ => rfl)
   erase := fun _ _ _ => keeps_of_same (fun s => by split <;> rfl) (fun s => by split <;> rfl)
@@ -97,7 +97,7 @@ theorem coherent_recv (env : Env) (line : Str) (w : W) (h : Coherent w.st) : Coh
   (rel_recv preO (fun _ m _ => stepRel m) (ParkOK.of_all park_keeps) env).step w h
 
 theorem coherent_send (obj : Option Msg) (b : Bool) (w : W) (h : Coherent w.st) : Coherent (apiSend obj b w).2.st :=
-  (rel_apiSend (stepRel default) (fun sm _ => park_keeps sm) obj b).step w h
+  (rel_apiSend preO (fun _ => Rel.transportWrite (fun _ h => h) _) (fun sm _ => park_keeps sm) obj b).step w h
 
 theorem coherent_step (st : St) (op : Op) (h : Coherent st) : Coherent (stepOp st op).1 := by
   cases op with
